@@ -134,7 +134,7 @@ fn qname(tcx: TyCtxt<'_>, did: DefId) -> String {
                     return format!("{}::{}", qname(tcx, parent), name);
                 }
                 DefKind::Trait => {
-                    return format!("{}::{}", path_str(tcx, parent), name);
+                    return format!("{}::{}", item_name(tcx, parent), name);
                 }
                 _ => {
                     return format!("{}::{}", qname(tcx, parent), name);
@@ -1012,6 +1012,20 @@ fn dump_body<'tcx>(tcx: TyCtxt<'tcx>, j: &mut J, ldid: LocalDefId) {
     j.comma();
     let mut em = Em { tcx, body, env, j };
     em.body();
+    // promoted constants of this body (e.g. `&BlendMode::SrcOver` in a comparison)
+    j.comma();
+    j.key("promoted");
+    j.raw("[");
+    let proms = tcx.promoted_mir(did);
+    for pb in proms.iter() {
+        j.raw("{");
+        let mut em = Em { tcx, body: pb, env, j };
+        em.body();
+        j.raw("}");
+        j.comma();
+    }
+    j.trim_comma();
+    j.raw("]");
     j.raw("}");
 }
 
